@@ -9,6 +9,21 @@ CHECKS={
  'C02':('runtime monitoring: generated models compiled with a reflective driver; JSON documents fed through UnmarshalJSON+Validate; differential oracle = go-openapi/validate on the input definition modulo the documented exceptions',
         'held on the executions observed: every schema-shape atom x position (definition, required/optional property, items, map values, allOf member, $ref alias, nested) x instgen documents (bounds -1/0/+1, lengths, counts, enum misses, malformed formats, zero values, missing/extra properties, type confusion), plus seeded composite objects; generated accept/reject must be an allowed verdict. Known disagreements are listed by (atom@position, document class).',
         'trusts go-openapi/validate v0.24.0 as reference; documented exceptions implemented in rig/oracle/modelsem.go; atoms whose generation/compilation fails are C01\'s','C02'),
+ 'C03':('runtime monitoring: generated server run in a child process behind a reflective recording driver; HTTP requests from a reference encoder + mutations; differential oracle = reference parameter binder (accept with values / reject / unspecified)',
+        'held on the executions observed: every parameter atom (location x type/format x collectionFormat x nesting x required/optional/default/allowEmptyValue x validation, bodies, files) alone and in seeded multi-parameter operations; the handler must run exactly for requests the reference binder accepts, with equal bound values, and every rejected request must get a 4xx without reaching the handler.',
+        'reference binder rig/oracle/refbind.go + go-openapi/validate; unspecified classes (empty optional non-string values, repeated keys, empty items, lenient boolean words) counted, not judged','C03'),
+ 'C04':('runtime monitoring: generated client wired to the generated server through an in-process RoundTripper in one child process; values-in = values-out monitor on both directions',
+        'held on the executions observed: every parameter atom with every reference-valid value set on the client params struct reaches the server handler with equal values; every declared / default / undeclared status with header values and payloads returned by generated typed responders comes back from the client as the typed result, typed error or APIError carrying that code and equal values.',
+        'only reference-accepted values are sent; bodies compared with the tolerant schema-directed comparison; a 2xx answered through the default response may come back in either wrapper','C04'),
+ 'C06':('runtime monitoring: generated server with reflective authenticators in a child process; exhaustive credential assignments per operation; OR-of-ANDs security evaluator as oracle',
+        'held on the executions observed: for every requirement shape (global / per operation / explicit empty, each scheme type and location, oauth2 scopes, AND, OR, OR of ANDs, schemes sharing a header) and EVERY assignment of absent/valid/invalid/insufficient-scope credentials the handler runs iff an alternative of the effective requirement is satisfied, else 401/403, and the principal comes from an authenticator of a satisfied alternative.',
+        'authenticators follow the documented convention (error code 401 for bad credentials); which satisfied alternative wins and 401 vs 403 not asserted','C06'),
+ 'C08':('runtime monitoring: generate server+client for colliding-name documents, then count artefacts and route a uniquely marked request to every (method, path) in the compiled server',
+        'held on the executions observed: for each collision atom the outcome must be a generator error or a bijection operations <-> handler fields <-> client methods <-> bound markers and definitions <-> model types. Atoms where operations / definitions are silently dropped today are listed in known-findings.json.',
+        'a generation that exits 0 but does not compile is left to C01','C08'),
+ 'C10':('runtime monitoring: generated servers (JSON/YAML input, three flatten modes) dump restapi.SwaggerJSON, FlatSwaggerJSON and GET /swagger.json through the driver; JSON-equality and expanded-equality oracles against the input',
+        'held on the executions observed: base document with every hostile string class in every free-text position, hand-written shapes, model and parameter atom batches and seeded composites; the embedded original and the served document must be JSON-equal to the input and the flattened one equal after $ref expansion.',
+        'expansion by go-openapi/spec; x-go-* keys only on the flattened side ignored; circular documents not compared in expanded form','C10'),
  'C05':('runtime monitoring: generated models decode->encode->decode->encode reference-valid documents; schema-directed tree comparison + byte idempotence monitor',
         'held on the executions observed: for every valid instgen document of every atom x position the re-encoded tree must keep every declared / allowed value at its path (three documented tolerances only), add nothing, and the second encoding must reproduce the first byte for byte; subtypes restored through base types.',
         'document validity by go-openapi/validate; tolerances in rig/oracle/roundtrip.go; x-omitempty:false zero rendering is not counted as an addition','C05'),
